@@ -19,6 +19,20 @@ def load_method(path, cls, name):
     raise TranslationError("method %s.%s not found" % (cls, name))
 
 
+def class_resolver(path, cls):
+    """helpers a method may call: other methods of its class (self.<name>) and module-level functions of the same file"""
+    tree = ast.parse(open(path).read())
+    table = {}
+    for node in tree.body:
+        if isinstance(node, ast.FunctionDef):
+            table[node.name] = node
+        if isinstance(node, ast.ClassDef) and node.name == cls:
+            for m in node.body:
+                if isinstance(m, ast.FunctionDef):
+                    table["self." + m.name] = m
+    return lambda name: table.get(name)
+
+
 def param_handlers(names):
     h = {}
     for n in names:
@@ -69,7 +83,7 @@ def gen(repo):
     h = param_handlers(["gamma", "rcut"])
     for meth in ("value", "gradient", "gradient_value", "gradient_laplacian"):
         m = load_method(path, "CutoffCuspFunction", meth)
-        se = SymExec(h)
+        se = SymExec(h, resolver=class_resolver(path, "CutoffCuspFunction"))
         env = {"r": ("s", "r"), "rvec": ("c", F(1)), "self": Opaque("self")}
         ret = se.run(m.body, env)["__return__"]
         if meth == "value":
